@@ -9,8 +9,14 @@ Split path of the model checker (BARRIER_ASYNC_LOCK + BARRIER_WAIT): since the r
 returned there is the `was_last()` read in the BARRIER_ASYNC_LOCK simcall; `split_path_same_answer` shows that it is the
 value of the one-simcall path, so `exactly_one_last_per_group` speaks about both paths
 (`mc_last_flag_counterexample` is kept as a regression statement about the old return value).
+History-level theorems for the split path itself (BARRIER_ASYNC_LOCK and BARRIER_WAIT as separate events, any
+interleaving, repeated use): `split_barrier_groups`, `split_groups_eq_div`, `split_no_early_return`,
+`split_all_returned_when_quiescent`, `split_exactly_one_last_per_group`, `split_one_true_return_per_group`,
+`split_wait_enabled_iff_granted` at the end of
+the file, over the run of C07/Split.lean.
 -/
 import SgVerif.C07.Lemmas
+import SgVerif.C07.SplitLemmas
 namespace SgVerif.C07
 open SgVerif.Sync
 
@@ -162,5 +168,132 @@ locks (releases 0 with `false`) and waits (gets `true`) -/
 example : ((({ w0 with bars := fun _ => { expected := 2 } } : World).run
       [.barAsync 0 0, .barWaitMC 0 0, .barAsync 1 0, .barWaitMC 1 0]).toOption.map (·.2)) =
     some [(0, .unit), (0, .flag false), (1, .unit), (1, .flag true)] := by decide
+
+/-! ### the SPLIT path, whole histories
+
+Every theorem: ∀ n ∈ [1, 2^32), for ALL histories of BARRIER_ASYNC_LOCK / BARRIER_WAIT events by any actors (`srun`,
+C07/Split.lean), repeated use of the barrier; a BARRIER_WAIT may be executed granted (what the checker does) or not
+granted (then it registers and is answered by the BARRIER_ASYNC_LOCK completing the group).  `arrF` = arrivals with
+the `was_last()` read in their BARRIER_ASYNC_LOCK; `retF` = (actor, value returned by its wait). -/
+
+/-- `World.step` on the split events reads and writes exactly what the split run reads and writes, with the same
+answers (the released registered waiters get `false`, the caller of BARRIER_ASYNC_LOCK gets its acquisition; a
+BARRIER_WAIT returns its `was_last` local iff granted) -/
+theorem split_step_is_world_step (w : World) (a : Aid) (b : Nat) :
+    ((barAsyncStep w a b).1.bars b = ((w.bars b).acquireAsync a).1 ∧
+     (barAsyncStep w a b).1.hgrant = upd (grantUnwaitedB w.hgrant ((w.bars b).acquireAsync a).2.2) a
+        ((w.bars b).acquireAsync a).2.1 ∧
+     (barAsyncStep w a b).1.hlast = upd w.hlast a ((w.bars b).acquireAsync a).1.wasLast ∧
+     (barAsyncStep w a b).2 =
+        (woken ((w.bars b).acquireAsync a).2.2).map (fun x => (x, Res.flag false)) ++ [(a, .unit)]) ∧
+    ((barWaitMCStep w a b).1.bars b = ((w.bars b).waitFor a (w.hgrant a)).1 ∧
+     (barWaitMCStep w a b).1.hgrant = w.hgrant ∧ (barWaitMCStep w a b).1.hlast = w.hlast ∧
+     (barWaitMCStep w a b).2 = if ((w.bars b).waitFor a (w.hgrant a)).2 then [(a, .flag (w.hlast a))] else []) := by
+  refine ⟨⟨?_, rfl, rfl, ?_⟩, ⟨?_, rfl, rfl, rfl⟩⟩
+  · simp [barAsyncStep, barAsyncStepR, upd]
+  · simp [barAsyncStep, barAsyncStepR, woken, List.map_map, Function.comp_def]
+  · simp [barWaitMCStep, upd]
+
+/-- split path, groups: at every point of every history #arrivals = n·g + |queue| with |queue| < n; the open group IS the
+queue, in arrival order, each of its arrivals having read `was_last() = false`; and for every (actor, value): the number
+of such (arrival, recorded flag) pairs among the first n·g arrivals = the number of such (actor, returned value) pairs
+among the returns + 1 if that actor holds a granted acquisition on which it has not executed its BARRIER_WAIT yet. -/
+theorem split_barrier_groups (n : Nat) (h1 : 1 ≤ n) (h2 : n < 4294967296) (es : List BEv) (s : SSt)
+    (h : srun (SSt.init n) es = .ok s) :
+    s.arrF.length = n * s.groups + s.b.queue.length ∧ s.b.queue.length < n ∧
+    s.arrF.drop (n * s.groups) = s.b.queue.map (fun q => (q.issuer, false)) ∧
+    ∀ x v, (s.arrF.take (n * s.groups)).count (x, v) = s.retF.count (x, v) + ind s x v :=
+  let hi := sinv_run h1 h2 es (sinv_init n h1) h
+  ⟨hi.len, hi.small, hi.openF, hi.cnt⟩
+
+/-- split path: the number of complete groups is ⌊arrivals / n⌋ -/
+theorem split_groups_eq_div (n : Nat) (h1 : 1 ≤ n) (h2 : n < 4294967296) (es : List BEv) (s : SSt)
+    (h : srun (SSt.init n) es = .ok s) : s.groups = s.arrF.length / n := by
+  obtain ⟨hl, hs, -, -⟩ := split_barrier_groups n h1 h2 es s h
+  symm
+  apply Nat.div_eq_of_lt_le
+  · rw [Nat.mul_comm]; omega
+  · rw [Nat.succ_mul, Nat.mul_comm]; omega
+
+/-- split path, no early return: every return (actor, value) is matched — with multiplicity — by an arrival of that
+actor in a COMPLETE group (one of the first n·⌊arrivals/n⌋) whose BARRIER_ASYNC_LOCK read that very value: no
+BARRIER_WAIT returns before n actors (including its issuer) have arrived in its group, and it returns the `was_last()`
+read at its arrival, whatever the interleaving. -/
+theorem split_no_early_return (n : Nat) (h1 : 1 ≤ n) (h2 : n < 4294967296) (es : List BEv) (s : SSt)
+    (h : srun (SSt.init n) es = .ok s) (p : Aid × Bool) :
+    s.retF.count p ≤ (s.arrF.take (n * (s.arrF.length / n))).count p := by
+  obtain ⟨x, v⟩ := p
+  rw [← split_groups_eq_div n h1 h2 es s h]
+  have := (split_barrier_groups n h1 h2 es s h).2.2.2 x v
+  omega
+
+/-- split path: when nobody holds a granted acquisition it has not waited on, the returns are exactly (as a multiset)
+the arrivals of the complete groups with their recorded flags — everybody of a complete group has returned -/
+theorem split_all_returned_when_quiescent (n : Nat) (h1 : 1 ≤ n) (h2 : n < 4294967296) (es : List BEv) (s : SSt)
+    (h : srun (SSt.init n) es = .ok s) (hq : ∀ x, ¬ (s.phase x = 1 ∧ s.hgrant x = true)) (p : Aid × Bool) :
+    s.retF.count p = (s.arrF.take (n * (s.arrF.length / n))).count p := by
+  obtain ⟨x, v⟩ := p
+  rw [← split_groups_eq_div n h1 h2 es s h]
+  have := (split_barrier_groups n h1 h2 es s h).2.2.2 x v
+  have hz : ind s x v = 0 := by
+    simp only [ind]
+    split
+    · rename_i hc; exact absurd ⟨hc.1, hc.2.1⟩ (hq x)
+    · rfl
+  omega
+
+/-- split path, exactly one "last" per complete group: among the `was_last()` values read by the arrivals (which are the
+values their waits return, `split_no_early_return`) the number of `true` is ⌊arrivals / n⌋ -/
+theorem split_exactly_one_last_per_group (n : Nat) (h1 : 1 ≤ n) (h2 : n < 4294967296) (es : List BEv) (s : SSt)
+    (h : srun (SSt.init n) es = .ok s) : (s.arrF.map (·.2)).count true = s.arrF.length / n := by
+  rw [← split_groups_eq_div n h1 h2 es s h]
+  exact (sinv_run h1 h2 es (sinv_init n h1) h).flags
+
+/-- split path, exactly one `true` per complete group among the RETURNED values: the number of waits that returned
+`true` + the number of actors whose BARRIER_ASYNC_LOCK completed a group and that have not executed their BARRIER_WAIT
+yet (`pendT`: exactly the actors holding a granted, un-waited acquisition whose recorded flag is `true`, each once)
+= ⌊arrivals / n⌋; so never more `true` returns than complete groups, and exactly as many once those actors have waited -/
+theorem split_one_true_return_per_group (n : Nat) (h1 : 1 ≤ n) (h2 : n < 4294967296) (es : List BEv) (s : SSt)
+    (h : srun (SSt.init n) es = .ok s) :
+    (s.retF.map (·.2)).count true + s.pendT.length = s.arrF.length / n ∧
+    (∀ x, x ∈ s.pendT ↔ (s.phase x = 1 ∧ s.hgrant x = true ∧ s.hlast x = true)) ∧ s.pendT.Nodup := by
+  have ht := tinv_run h1 h2 es (sinv_init n h1) (tinv_init n) h
+  rw [← split_groups_eq_div n h1 h2 es s h]
+  exact ⟨ht.tcnt, ht.pT, ht.pnd⟩
+
+/-- split path: BARRIER_WAIT of an actor holding an un-waited acquisition completes at once iff that acquisition is
+granted, iff it is not in the queue (the enabledness test of the checker) -/
+theorem split_wait_enabled_iff_granted (n : Nat) (h1 : 1 ≤ n) (h2 : n < 4294967296) (es : List BEv) (s : SSt)
+    (h : srun (SSt.init n) es = .ok s) (a : Aid) (hp : s.phase a = 1) :
+    (s.b.waitFor a (s.hgrant a)).2 = true ↔ a ∉ s.b.queue.map (·.issuer) := by
+  have hi := sinv_run h1 h2 es (sinv_init n h1) h
+  rw [waitFor_completes_iff_granted]
+  constructor
+  · intro hg hm
+    obtain ⟨q, hq, e⟩ := List.mem_map.mp hm
+    cases hw : q.waited with
+    | true => have := (hi.phq q hq).1 hw; rw [e, hp] at this; cases this
+    | false => have := ((hi.phq q hq).2 hw).2.1; rw [e, hg] at this; cases this
+  · intro hn
+    cases hg : s.hgrant a with
+    | true => rfl
+    | false => exact absurd (hi.ph1 a hp hg) hn
+
+/-- non-vacuity, split path, n = 2: 0 and 1 arrive; 1 waits first (granted: returns true), 0 waits (returns false); then
+2 arrives and waits (blocks, registered), 0 arrives (completes the group: 2 is answered false) and waits (true) -/
+example : ((srun (SSt.init 2) [.async 0, .async 1, .wait 1, .wait 0, .async 2, .wait 2, .async 0, .wait 0]).toOption.map
+      (fun s => (s.retF, s.groups, s.arrF, s.b.queue.map (·.issuer)))) =
+    some ([(1, true), (0, false), (2, false), (0, true)], 2, [(0, false), (1, true), (2, false), (0, true)], []) := by
+  decide
+
+/-- … a state in the middle: the group of 0 and 1 is complete, nobody has waited yet: both hold a granted acquisition,
+nothing returned; 2 is in the open group -/
+example : ((srun (SSt.init 2) [.async 0, .async 1, .async 2]).toOption.map
+      (fun s => (s.retF, s.groups, [s.hgrant 0, s.hgrant 1, s.hgrant 2], s.b.queue.map (·.issuer) ++ s.pendT))) =
+    some ([], 1, [true, true, false], [2, 1]) := by decide
+
+/-- an actor inside the barrier cannot arrive again; a BARRIER_WAIT needs an acquisition -/
+example : (srun (SSt.init 3) [.async 0, .async 0]).toOption.isNone = true ∧
+    (srun (SSt.init 3) [.wait 0]).toOption.isNone = true := by decide
 
 end SgVerif.C07
